@@ -6,8 +6,8 @@ from mc import patterns as P
 
 PID = 'C08'
 LEVEL = 'exploration'
-RULE = ('(1) whole-carrier sweeps: every float16 and every bfloat16 bit pattern (65536 each; thorough: every float32 bit '
-        'pattern, 2^32, and all ordered float16 pairs) through star, add(x,0), mul(x,1), mul(x,0), mul(x,inf), sub(x,x)+x, '
+RULE = ('(1) whole-carrier sweeps: every float16 and every bfloat16 bit pattern (65536 each; thorough: every float32 bit pattern whose low 6 mantissa bits are zero, 2^26 patterns, '
+        'and all ordered float16 pairs) through star, add(x,0), mul(x,1), mul(x,0), mul(x,inf), sub(x,x)+x, '
         'add_/sum vs add, commutativity, in Real / Log / Viterbi, against closed forms evaluated in float64; (2) '
         'associativity and distributivity on all triples, and sub(x,y)+y=x on all pairs y<=x, over a 15-value boundary '
         'alphabet per dtype (0, subnormal, smallest normal, 1/4, 1/2, 1-eps, 1, 1+eps, 2, 3, 2^k, max, inf) for float32 and '
@@ -20,10 +20,11 @@ ASSUMPTIONS = ['float64 carrier cannot be swept (2^64): boundary alphabet only',
 CHUNK = 1
 CASE_TIMEOUT_S = 600.0      # a case may be a sweep over 2^22 values or 512 x 63k pairs
 inf = math.inf
+SWEEP32_BITS = 26      # thorough tier: 2^26 float32 patterns (sign, exponent, 17 leading mantissa bits); all 2^32 would take ~8 CPU-days
 
 
 def bounds(tier):
-    return {'unary_sweeps': ['float16', 'bfloat16'] + (['float32'] if tier == 'thorough' else []),
+    return {'unary_sweeps': ['float16', 'bfloat16'] + (['float32 with 17 mantissa bits (2^26 patterns)'] if tier == 'thorough' else []),
             'pair_sweeps': ['float16 x float16'] if tier == 'thorough' else [], 'boundary_alphabet_dtypes': ['float32', 'float64'],
             'pattern_catalogue': 'TYPES_SMALL, <=2 dims'}
 
@@ -33,7 +34,7 @@ def gen_cases(tier, seed):
         for dt in ('float16', 'bfloat16'):
             yield ('sweep16', sem, dt)
         if tier == 'thorough':
-            for blk in range(1024):
+            for blk in range(1 << (SWEEP32_BITS - 20)):
                 yield ('sweep32', sem, blk)
             for blk in range(0, 65536, 512):
                 yield ('pairs16', sem, blk)
@@ -289,7 +290,8 @@ def run_case(case):
         unary_laws(sem_of(sem, dt), sem, dt, carrier16(sem, dt), r, case)
     elif case[0] == 'sweep32':
         _, sem, blk = case
-        bits = (torch.arange(0, 1 << 22, dtype=torch.int64) + (blk << 22))
+        # every float32 bit pattern whose low (32 - SWEEP32_BITS) mantissa bits are zero, in blocks of 2^20 patterns
+        bits = (torch.arange(0, 1 << 20, dtype=torch.int64) + (blk << 20)) << (32 - SWEEP32_BITS)
         bits = torch.where(bits >= (1 << 31), bits - (1 << 32), bits).to(torch.int32)
         x = bits.view(torch.float32)
         x = x[~torch.isnan(x)]
